@@ -29,7 +29,7 @@ ASSUMPTIONS = [
     'a syntactically malformed resource name may be rejected as INVALID by one backend and NOT_FOUND by another: '
     'both count as the same rejection (the documentation does not say which)',
 ]
-REQUIRED_COUNTERS = ['committed_equals_visible_checked', 'early_stop_answers_compared', 'early_stop_answers_true', 'algorithm_reach_compared', 'calls_compared_3way', 'snapshots_compared_3way', 'study_recreations', 'failed_metadata_updates',
+REQUIRED_COUNTERS = ['id_reuse_tails_run', 'committed_equals_visible_checked', 'early_stop_answers_compared', 'early_stop_answers_true', 'algorithm_reach_compared', 'calls_compared_3way', 'snapshots_compared_3way', 'study_recreations', 'failed_metadata_updates',
                      'operations_compared']
 MIN_DISTINCT = {'quick': 60, 'thorough': 2000}
 
@@ -95,8 +95,26 @@ def run_case(ctx, index, calls=None):
     op_names = set()
     events = {'recreate': 0, 'failed_md': 0}
     deleted = set()
-    for k in range(n):
-      call = calls[k] if calls is not None else rpcprog.gen_call(rng, ram.model, WEIGHTS, PROFILE)
+    tail = []          # scripted continuation, generated against the state reached (see below)
+    k = -1
+    while True:
+      k += 1
+      if k >= n:
+        if calls is not None:
+          break
+        if k == n and index % 3 == 0:
+          tail = id_reuse_tail(rng, ram, random_studies)
+          if tail:
+            ctx.count('id_reuse_tails_run')
+        if k - n >= len(tail):
+          break
+        call = tail[k - n]
+        if callable(call):
+          call = call(ram)
+          if call is None:
+            break
+      else:
+        call = calls[k] if calls is not None else rpcprog.gen_call(rng, ram.model, WEIGHTS, PROFILE)
       executed.append(call)
       case = {'calls': executed[:], 'index': index}
       if call['op'] == 'CreateStudy' and call.get('algo') == 'RANDOM_SEARCH' and call.get('display'):
@@ -212,6 +230,43 @@ def run_case(ctx, index, calls=None):
     return executed
   finally:
     shutil.rmtree(tmp, ignore_errors=True)
+
+
+def id_reuse_tail(rng, ram, random_studies):
+  """What is kept *about* a trial (early-stopping decision, operations) when the trial is
+  deleted and its id is handed out again: hand out a trial, have the algorithm decide about
+  it, delete it, hand out the next trial (same id when it was the newest), ask again."""
+  from vv import service as S
+  cands = sorted(sn for sn, st in ram.model.studies.items()
+                 if st['study']['state'] in ('ACTIVE', 'STATE_UNSPECIFIED') and st['study']['algo'] == S.STUB
+                 and sn not in random_studies)
+  if not cands:
+    return []
+  sn = rng.choice(cands)
+  box = {}
+
+  def first(r):
+    return {'op': 'SuggestTrials', 'study': sn, 'count': 1, 'client': 'tail-a', '_stub_entry': {'delta': 0}}
+
+  def check1(r):
+    resp = r.last_response
+    if not (isinstance(resp, dict) and resp.get('trials')):
+      return None
+    box['t'] = resp['trials'][0]['name']
+    return {'op': 'CheckTrialEarlyStoppingState', 'trial': box['t'], '_es_entry': {'stop': True}}
+
+  def delete(r):
+    return {'op': 'DeleteTrial', 'trial': box['t']}
+
+  def second(r):
+    return {'op': 'SuggestTrials', 'study': sn, 'count': 1, 'client': 'tail-b', '_stub_entry': {'delta': 0}}
+
+  def check2(r):
+    resp = r.last_response
+    if not (isinstance(resp, dict) and resp.get('trials')):
+      return None
+    return {'op': 'CheckTrialEarlyStoppingState', 'trial': resp['trials'][0]['name'], '_es_entry': {'stop': False}}
+  return [first, check1, delete, second, check2]
 
 
 def run_shard(ctx):
